@@ -10,6 +10,10 @@ use crate::version::M2Version;
 /// Magic signature for Modern Anim files ("MAOF")
 pub const ANIM_MAGIC: [u8; 4] = *b"MAOF";
 
+/// Element counts come straight from the file: they only bound the pre-allocation,
+/// a truncated file ends the read loop with an error
+const MAX_PREALLOC: usize = 4096;
+
 /// ANIM file format types
 ///
 /// ANIM files evolved significantly between World of Warcraft expansions:
@@ -291,17 +295,21 @@ impl AnimSection {
 
         // Determine the bone count
         let header_size = 16; // "AFID" + id + start + end
-        let remaining_size = size - header_size;
+        let remaining_size = size.checked_sub(header_size).ok_or_else(|| {
+            M2Error::ParseError(format!(
+                "ANIM section size {size} is smaller than its {header_size}-byte header"
+            ))
+        })?;
         let bone_count = remaining_size / 4; // Each bone animation reference is 4 bytes
 
         // Read bone animation offsets
-        let mut bone_offsets = Vec::with_capacity(bone_count as usize);
+        let mut bone_offsets = Vec::with_capacity((bone_count as usize).min(MAX_PREALLOC));
         for _ in 0..bone_count {
             bone_offsets.push(reader.read_u32_le()?);
         }
 
         // Read bone animations
-        let mut bone_animations = Vec::with_capacity(bone_count as usize);
+        let mut bone_animations = Vec::with_capacity((bone_count as usize).min(MAX_PREALLOC));
 
         for &offset in &bone_offsets {
             if offset > 0 {
@@ -315,12 +323,12 @@ impl AnimSection {
                 let translation = if (flags & 0x1) != 0 {
                     let timestamp_count = reader.read_u32_le()?;
 
-                    let mut timestamps = Vec::with_capacity(timestamp_count as usize);
+                    let mut timestamps = Vec::with_capacity((timestamp_count as usize).min(MAX_PREALLOC));
                     for _ in 0..timestamp_count {
                         timestamps.push(reader.read_u32_le()?);
                     }
 
-                    let mut translations = Vec::with_capacity(timestamp_count as usize);
+                    let mut translations = Vec::with_capacity((timestamp_count as usize).min(MAX_PREALLOC));
                     for _ in 0..timestamp_count {
                         translations.push(C3Vector::parse(reader)?);
                     }
@@ -337,12 +345,12 @@ impl AnimSection {
                 let rotation = if (flags & 0x2) != 0 {
                     let timestamp_count = reader.read_u32_le()?;
 
-                    let mut timestamps = Vec::with_capacity(timestamp_count as usize);
+                    let mut timestamps = Vec::with_capacity((timestamp_count as usize).min(MAX_PREALLOC));
                     for _ in 0..timestamp_count {
                         timestamps.push(reader.read_u32_le()?);
                     }
 
-                    let mut rotations = Vec::with_capacity(timestamp_count as usize);
+                    let mut rotations = Vec::with_capacity((timestamp_count as usize).min(MAX_PREALLOC));
                     for _ in 0..timestamp_count {
                         rotations.push(Quaternion::parse(reader)?);
                     }
@@ -359,12 +367,12 @@ impl AnimSection {
                 let scaling = if (flags & 0x4) != 0 {
                     let timestamp_count = reader.read_u32_le()?;
 
-                    let mut timestamps = Vec::with_capacity(timestamp_count as usize);
+                    let mut timestamps = Vec::with_capacity((timestamp_count as usize).min(MAX_PREALLOC));
                     for _ in 0..timestamp_count {
                         timestamps.push(reader.read_u32_le()?);
                     }
 
-                    let mut scalings = Vec::with_capacity(timestamp_count as usize);
+                    let mut scalings = Vec::with_capacity((timestamp_count as usize).min(MAX_PREALLOC));
                     for _ in 0..timestamp_count {
                         scalings.push(C3Vector::parse(reader)?);
                     }
@@ -769,7 +777,7 @@ impl AnimParser {
         // Parse animation entries
         reader.seek(SeekFrom::Start(header.anim_entry_offset as u64))?;
 
-        let mut entries = Vec::with_capacity(header.id_count as usize);
+        let mut entries = Vec::with_capacity((header.id_count as usize).min(MAX_PREALLOC));
         for _ in 0..header.id_count {
             entries.push(AnimEntry::parse(reader)?);
         }
